@@ -345,12 +345,18 @@ def verify_job(cname, shape, max_paths=20000):
         vc = SymVC(cname, shape)
         CURRENT_VC = vc
         vcs.append(vc)
+        from . import shadows
+
+        del shadows.TRIPPED[:]
         with _StubCtx(fn.stubs) as sc:
             vc.stubctx = sc
             try:
                 fn(vc, **shape)
             except PathEnd:
                 return "pre-false"
+            finally:
+                if "C19" in fn.properties:  # codec entry points: parsing must not consult the clock or a random source
+                    vc.prove("consults_no_wall_clock_time_or_randomness", not shadows.TRIPPED, note=list(shadows.TRIPPED[:3]))
         return "done"
 
     try:
@@ -413,6 +419,7 @@ class NativeVC:
         self.failed = []
         self.checked = []
         self.drawn = {}
+        self.notes = {}
 
     def _draw(self, name, nbits):
         if self.rnd is None:
@@ -526,6 +533,8 @@ class NativeVC:
         self.checked.append(clause)
         if not cond:
             self.failed.append(clause)
+            if note is not None:
+                self.notes[clause] = note
 
     def path_model(self):
         return None
@@ -548,4 +557,4 @@ def replay(cname, shape, witness, rnd=None):
         if where is None:
             where = next((f"{f.filename.split('/')[-1]}:{f.lineno}" for f in reversed(tb)), "?")
         exc = dict(exc=exc, where=where, msg=str(e)[:200])
-    return dict(failed=vc.failed, checked=vc.checked, exception=exc, drawn=vc.drawn)
+    return dict(failed=vc.failed, checked=vc.checked, exception=exc, drawn=vc.drawn, notes=vc.notes)
